@@ -29,4 +29,20 @@ static inline uint8_t *stream()
         g = base;
         return g;
 }
+// A writable 5 GiB region in which every 1 MiB page group aliases the same 1 MiB of memory: a sink for multi-GiB outputs.
+// After a sequential write of n bytes, the last min(n, 1 MiB) bytes written are readable at their own addresses.
+static inline uint8_t *sink()
+{
+        static uint8_t *g = nullptr;
+        if (g) return g;
+        int fd = (int) syscall(SYS_memfd_create, "periodic-sink", 0);
+        if (fd < 0 || ftruncate(fd, PERIOD)) { perror("memfd"); exit(3); }
+        uint8_t *base = (uint8_t *) mmap(nullptr, SPAN + 2 * 4096, PROT_NONE, MAP_PRIVATE | MAP_ANONYMOUS | MAP_NORESERVE, -1, 0);
+        if (base == MAP_FAILED) { perror("reserve"); exit(3); }
+        base += 4096;
+        for (uint64_t o = 0; o < SPAN; o += PERIOD)
+                if (mmap(base + o, PERIOD, PROT_READ | PROT_WRITE, MAP_SHARED | MAP_FIXED, fd, 0) == MAP_FAILED) { perror("map sink"); exit(3); }
+        g = base;
+        return g;
+}
 } // namespace periodic
